@@ -10,6 +10,7 @@ import (
 	"net/http"
 	"net/url"
 	"strings"
+	"sync"
 	"syscall"
 	"time"
 
@@ -263,9 +264,14 @@ func NewUpstream(addr string, opt Opt) (_ Upstream, err error) {
 				MaxResponseHeaderBytes: 4 * 1024,
 			}
 		} else {
+			tracker := newConnTracker()
 			t1 := &http.Transport{
 				DialContext: func(ctx context.Context, network, addr string) (net.Conn, error) {
-					return dialer.DialContext(ctx, dialNetworkTcpOrUnix(dialAddr), dialAddr)
+					c, err := dialer.DialContext(ctx, dialNetworkTcpOrUnix(dialAddr), dialAddr)
+					if err != nil {
+						return nil, err
+					}
+					return tracker.track(c)
 				},
 				TLSClientConfig:     opt.TLSConfig,
 				TLSHandshakeTimeout: tlsHandshakeTimeout,
@@ -285,6 +291,13 @@ func NewUpstream(addr string, opt Opt) (_ Upstream, err error) {
 			t2.ReadIdleTimeout = time.Second * 30
 			t2.PingTimeout = time.Second * 5
 			t = t1
+			// http.Transport can only close its idle connections. Close
+			// the others (and late dials) by hand.
+			addonCloser = closerFunc(func() error {
+				t1.CloseIdleConnections()
+				tracker.closeAll()
+				return nil
+			})
 		}
 		opt := transport.DoHTransportOpts{
 			EndPointUrl:  addrURL.String(),
@@ -362,6 +375,57 @@ func NewUpstream(addr string, opt Opt) (_ Upstream, err error) {
 	default:
 		return nil, fmt.Errorf("unsupported protocol [%s]", addrURL.Scheme)
 	}
+}
+
+type closerFunc func() error
+
+func (f closerFunc) Close() error { return f() }
+
+// connTracker remembers the connections that were dialed for a http.Transport,
+// so that all of them can be closed when the upstream is closed.
+type connTracker struct {
+	m      sync.Mutex
+	closed bool
+	conns  map[*trackedConn]struct{}
+}
+
+type trackedConn struct {
+	net.Conn
+	t *connTracker
+}
+
+func newConnTracker() *connTracker {
+	return &connTracker{conns: make(map[*trackedConn]struct{})}
+}
+
+func (t *connTracker) track(c net.Conn) (net.Conn, error) {
+	tc := &trackedConn{Conn: c, t: t}
+	t.m.Lock()
+	defer t.m.Unlock()
+	if t.closed { // dial finished after the upstream was closed
+		c.Close()
+		return nil, transport.ErrClosedTransport
+	}
+	t.conns[tc] = struct{}{}
+	return tc, nil
+}
+
+func (t *connTracker) closeAll() {
+	t.m.Lock()
+	t.closed = true
+	conns := t.conns
+	t.conns = make(map[*trackedConn]struct{})
+	t.m.Unlock()
+	for c := range conns {
+		c.Conn.Close()
+	}
+}
+
+func (c *trackedConn) Close() error {
+	c.t.m.Lock()
+	delete(c.t.conns, c)
+	c.t.m.Unlock()
+	return c.Conn.Close()
 }
 
 type udpWithFallback struct {
